@@ -1974,6 +1974,7 @@ def main(argv):
     pids = [a for a in argv[1:] if a.upper().startswith('C') and a[1:].isdigit()] or sorted(srctie_specs.SPECS)
     try:
         n = reject_tests() + reject_tests2() + reject_tests3()
+        n += sum(m.reject_tests() for m in _ext_modules([p.upper() for p in pids]) if hasattr(m, 'reject_tests'))
         n += run([p.upper() for p in pids], quick, seed, snippets='--no-snippets' not in argv)[0]
     except common.InfraError as e:
         print('infrastructure error: %s' % e)
